@@ -110,6 +110,7 @@ def Skeleton.pinned : Skeleton where
   cvSliceElementwise := true
   cvFallbackError := true
   pxResultChecksValid := true
+  pxCtxIsInvocationCtx := true
   pxArgsFreshPerInvocation := true
   clArgCountChecked := true
   clCallViaUtilsCall := true
@@ -151,6 +152,7 @@ def Skeleton.pinned : Skeleton where
   stDecoderExitsOnErr := true
   stAbortClosesDone := false
   stDoneClosedOncePerExit := true
+  stMsgFreshPerIteration := true
   stReadersSelectDone := true
   stEncodeRequestOnly := true
   stEncodeResponseOnly := true
